@@ -71,6 +71,7 @@ class Block:
         self.castfn = None    # (rewrite id, [types]) of //@castfn
         self.spec = None
         self.loops = {}       # n -> text
+        self.loop_kw = {}     # n -> expected loop keyword
         self.anchored = []    # (where, anchor, k, text)
         self.bodystart = None
         self.strip_inner_attrs = True
@@ -298,6 +299,9 @@ def build_item(repo, blk, cache):
     for n, ltext in blk.loops.items():
         if n < 1 or n > len(loops): raise ToolError("LOST-ANCHOR //@loop %d: %s has %d loops" % (n, blk.path, len(loops)))
         kw, kpos, bpos, cpos = loops[n - 1]
+        if os.environ.get("VERIF_PRINT_LOOPS"): print("LOOPKW\t%s\t%s\t%d\t%s" % (blk.file, blk.path, n, kw))
+        if blk.loop_kw.get(n) and blk.loop_kw[n] != kw:
+            raise ToolError("LOST-ANCHOR //@loop %d: the ghost text was written for a `%s` loop, %s :: %s now has a `%s` loop there" % (n, blk.loop_kw[n], blk.file, blk.path, kw))
         add(bpos, 0, "\n" + ltext + "\n", "ghost-loop")
     for where, anchor, k, atext, *aopt in blk.anchored:
         # search inside the body only
@@ -412,7 +416,12 @@ def generate(repo, unit_tmpl):
                         if len(ws) < 2: raise ToolError("%s:%d malformed //@castfn (id and at least one type)" % (tf, n2))
                         blk.castfn = (ws[0], ws[1:])
                     elif d == "spec": cur = ("spec",)
-                    elif d == "loop": cur = ("loop", int(rest))
+                    elif d == "loop":
+                        ws = rest.split()
+                        cur = ("loop", int(ws[0]))
+                        # optional second word: the loop keyword the ghost text was written for (`loop` / `while` / `for`); a
+                        # loop of another kind at that position means the splice no longer fits (tool limit, not a failure)
+                        if len(ws) > 1: blk.loop_kw[int(ws[0])] = ws[1]
                     elif d in ("before", "after", "before-opt", "after-opt"):
                         anchor, r2 = parse_quoted(rest)
                         k = 1
